@@ -4,7 +4,7 @@
    Theorems are about the processing sequence (trips in stable departure order, as
    [assign] runs them, see C20_assign_structure); [o1] is the part of the output produced
    before trip [t] gets vehicle [v]. *)
-From Coq Require Import ZArith List String Sorted Permutation.
+From Coq Require Import ZArith List String Sorted Permutation Lia.
 From SV Require Import Assign AssignProps.
 Import ListNotations.
 Open Scope Z_scope.
@@ -80,6 +80,24 @@ Theorem C20_first_idle_first : forall m idl e r, take_first m idl = Some (e, r) 
     Forall (fun x => m (snd x) = false) l1.
 Proof. exact take_first_some. Qed.
 Print Assumptions C20_first_idle_first.
+
+(* ... and the idle list itself is ordered by the time the vehicles became available (for trips that arrive no earlier
+   than they depart and non-negative standing times): first match in this list = the matching vehicle that has been
+   idle longest — the "first in, first out" principle *)
+From SV Require Import AssignFifo.
+Theorem C20_idle_list_fifo : forall (st:string -> Z), (forall t, 0 <= st t) ->
+  forall types ts s' vs, dep_sorted ts -> Forall (fun t => dep t <= arr t) ts ->
+  run_gen (step st) (init types) ts = Some (s', vs) -> sortedE (idle s').
+Proof.
+  intros st Hst types ts s' vs Hs HF H.
+  destruct ts as [|t0 ts0].
+  - cbn in H. injection H as <- _. cbn. constructor.
+  - eapply (idle_fifo_order st Hst (t0 :: ts0) (init types) (dep t0)); [apply J_init|exact Hs| |exact H].
+    apply Sorted.StronglySorted_inv in Hs. destruct Hs as [_ Hs2].
+    constructor; [split; [lia|inversion HF; assumption]|].
+    rewrite Forall_forall in *. intros x Hx. split; [apply Hs2, Hx|apply HF; right; exact Hx].
+Qed.
+Print Assumptions C20_idle_list_fifo.
 
 (* The pinned upstream revision violates type purity (D3a) and frugality/FIFO (D3b). *)
 Theorem C20_type_pure_refuted :
